@@ -107,13 +107,15 @@ package option
 //
 // unfold_boolean: an option that does not assign a boolean comes back unchanged; otherwise two
 // argument-less options come back, named as configured, each with one constant assignment to the
-// same target path, keeping the comments.
+// same target path, each with its OWN copy of the comments (a later add_comments on one of them must
+// not write into the other's).
+//@ spec sameComments(n, o) = len(n) == len(o) && (forall c: int :: 0 <= c && c < len(o) ==> n[c] == o[c]) && (base(n) == 0 || fresh(n))
 //@ func UnfoldBooleanAction$1
 //@   property C17
 //@   requires len(option.Assignments) >= 1 && len(option.Assignments[0].Path) >= 1
 //@   modifies spare-capacity
 //@   ensures  unchanged: !(option.Assignments[0].Path[len(option.Assignments[0].Path) - 1].Type.Kind == ast.KindScalar && option.Assignments[0].Path[len(option.Assignments[0].Path) - 1].Type.Scalar.ScalarKind == ast.KindBool) ==> len(result) == 1 && result[0] == option
-//@   ensures  unfolded: option.Assignments[0].Path[len(option.Assignments[0].Path) - 1].Type.Kind == ast.KindScalar && option.Assignments[0].Path[len(option.Assignments[0].Path) - 1].Type.Scalar.ScalarKind == ast.KindBool ==> len(result) == 2 && result[0].Name == unfoldOpts.OptionTrue && result[1].Name == unfoldOpts.OptionFalse && len(result[0].Args) == 0 && len(result[1].Args) == 0 && result[0].Comments == option.Comments && result[1].Comments == option.Comments && len(result[0].Assignments) == 1 && len(result[1].Assignments) == 1 && result[0].Assignments[0].Path == old(option.Assignments[0].Path) && result[1].Assignments[0].Path == old(option.Assignments[0].Path) && result[0].Assignments[0].Value.Argument == nil && result[1].Assignments[0].Value.Argument == nil && result[0].Assignments[0].Method == ast.DirectAssignment && result[1].Assignments[0].Method == ast.DirectAssignment
+//@   ensures  unfolded: option.Assignments[0].Path[len(option.Assignments[0].Path) - 1].Type.Kind == ast.KindScalar && option.Assignments[0].Path[len(option.Assignments[0].Path) - 1].Type.Scalar.ScalarKind == ast.KindBool ==> len(result) == 2 && result[0].Name == unfoldOpts.OptionTrue && result[1].Name == unfoldOpts.OptionFalse && len(result[0].Args) == 0 && len(result[1].Args) == 0 && sameComments(result[0].Comments, option.Comments) && sameComments(result[1].Comments, option.Comments) && len(result[0].Assignments) == 1 && len(result[1].Assignments) == 1 && result[0].Assignments[0].Path == old(option.Assignments[0].Path) && result[1].Assignments[0].Path == old(option.Assignments[0].Path) && result[0].Assignments[0].Value.Argument == nil && result[1].Assignments[0].Value.Argument == nil && result[0].Assignments[0].Method == ast.DirectAssignment && result[1].Assignments[0].Method == ast.DirectAssignment
 //
 // Selectors: the package is compared exactly, builder/object and option names case-insensitively.
 //@ func ByName$1
